@@ -392,6 +392,11 @@ func (a *Arith) binopInt(op token.Token, x, y *Term, ii intInfo, yii intInfo) ar
 		if y.IsConst() && y.Val.Sign() >= 0 && !ii.Signed {
 			return arithRes{T: ISub(x, intAndConst(x, y.Val))}
 		}
+		if y.IsConst() && y.Val.Sign() >= 0 && ii.Signed {
+			// two's complement: x &^ c == x - (x & c), and x & c only looks at
+			// the low bits of x mod 2^W
+			return arithRes{T: ISub(x, intAndConst(IMod(x, IntBig(pow2(ii.W))), y.Val))}
+		}
 		return arithRes{Err: fmt.Errorf("int theory: &^ with non-constant mask")}
 	case token.OR:
 		if x.IsConst() && x.Val.Sign() == 0 {
